@@ -4,12 +4,17 @@ PROP = {
     "modules": ["Proofs.C06", "Proofs.C06E2E"],
     "streams": [{"name": "parse"}],
     "rule": "parse: every sequence of <=4 (quick) / <=5 (thorough) tokens over the 22-symbol alphabet {8 block opens, "
-            "their 8 end tags, else, elsif, when, assign, an object, text}, then up to 5 (quick) / 6 (thorough) tokens over "
+            "their 8 end tags, else, elsif, when, assign, an object, text}, then every sequence of exactly 5 (quick) / 6 (thorough) tokens over "
             "the reduced 12-symbol alphabet {if endif for endfor comment endcomment raw endraw else elsif when text}, all "
-            "compared with the model; thorough additionally runs length 6 over the 22 symbols and length 7 over the 12 "
-            "symbols against the oracle only; random well-nested templates of depth <=40 (hyphens, newlines inside tags, "
+            "compared with the model; thorough additionally runs length 7 over the 12 symbols against the oracle only "
+            "(length 6 over the 22 symbols, 22^6 sequences, oracle only, runs only when VERIF_C06_FULL is set in the "
+            "environment: not part of ./check); random well-nested templates of depth <=40 (hyphens, newlines inside tags, "
             "junk inside comment/raw, alternative delimiters) with their one-edit neighbours (delete / duplicate / swap a "
-            "tag); the repository's test templates and mutants. A case is non-trivial when it contains a tag with block "
+            "tag); the repository's test templates and mutants. Oracle on the real code: accepted iff the recogniser says well "
+            "nested and expressions.Parse accepts every visible object (every case); a rejected template renders nothing "
+            "(enumerated and unedited random templates, every 8th by hash of the source); rendered output = reference "
+            "expansion (accepted enumerated and unedited random templates under the default delimiters; not for one-edit "
+            "neighbours, alternative delimiters, harvested templates and mutants). A case is non-trivial when it contains a tag with block "
             "syntax; distinct by case line",
     "trusted_base": COMMON_TB + [
         "the recogniser of the nesting grammar and the reference expansion in harness/stream_parse.go (oracle) are "
@@ -45,8 +50,9 @@ TEXT = {
             "of whose objects hold expressions, not well nested <=> compilation (hence run) fails with notInside or unterminated "
             "(not_well_nested_iff_nesting_error). These assume that no object token has arguments outside the expression-lexer "
             "model (negative-zero literal), where the model answers `unmodelled` before parsing. The model is compared with "
-            "cfg.Parse on exhaustive token sequences and random nested templates each run; an independent recogniser and a "
-            "reference expansion are evaluated on the real parser and renderer.",
+            "cfg.Parse on exhaustive token sequences and random nested templates each run; an independent recogniser is "
+            "evaluated on the real parser in every case, a reference expansion on the real renderer for the accepted enumerated "
+            "and unedited random templates, and 'rejected renders nothing' on a sample (every 8th) of the rejected ones.",
     "design_ref": "DESIGN.md 6 C06",
     "note": NOTE + "The round trip is stated modulo canon (comment blocks dropped; raw interiors as text tokens of equal source; "
             "end tags and trim markers without line/args/source), which is exactly the information the Go AST does not keep.",
